@@ -75,40 +75,51 @@ def _refill_test_holds(kind, state):
 
 
 def _cursor_after(stmts, state):
-    """transfer of the statements that write the cursor; None if one of them is not understood"""
-    buf, off = state
+    """abstract transfer of a statement list over a SET of cursor states (branches are joined); None = not modelled.
+    Accepts one state or a set; returns a set."""
+    states = {state} if isinstance(state, tuple) else set(state)
     for st in stmts:
-        if isinstance(st, ast.Assign) and "self._buffer" in stores_to(st) and len(st.targets) == 1:
-            v = st.value
-            if const_value(v) == b"":
-                buf, off = "E", ("Z" if off in ("Z", "L") else off)
-                if off == "M":
+        nxt = set()
+        for (buf, off) in states:
+            if isinstance(st, ast.Assign) and "self._buffer" in stores_to(st) and len(st.targets) == 1:
+                v = st.value
+                if const_value(v) == b"":
+                    if off == "M":
+                        return None
+                    nxt.add(("E", "Z"))
+                elif unparse(v) == "self._buffer[self._buffer_offset:]":
+                    if off == "L":
+                        nxt.add(("E", "Z"))
+                    elif off == "M":
+                        nxt.add((buf, "?"))      # offset is stale until it is reset
+                    else:
+                        nxt.add((buf, off))
+                else:
                     return None
-            elif unparse(v) == "self._buffer[self._buffer_offset:]":
-                if off == "L":
-                    buf = "E"
-                elif off == "M":
-                    off = None   # offset now points past the re-based data until it is reset
-                # Z: unchanged
-            else:
+            elif isinstance(st, ast.Assign) and "self._buffer_offset" in stores_to(st) and len(st.targets) == 1:
+                v = st.value
+                if is_const(v, 0):
+                    nxt.add((buf, "Z"))
+                elif unparse(v) == "len(self._buffer)":
+                    nxt.add((buf, "Z" if buf == "E" else "L"))
+                else:
+                    return None
+            elif isinstance(st, ast.If):
+                for br in (st.body, st.orelse):
+                    r = _cursor_after(br, (buf, off))
+                    if r is None:
+                        return None
+                    nxt |= r
+            elif isinstance(st, (ast.While, ast.For, ast.Try, ast.With)) and ({"self._buffer", "self._buffer_offset"} & {x for n_ in ast.walk(st) if isinstance(n_, (ast.Assign, ast.AugAssign)) for x in stores_to(n_)}):
                 return None
-        elif isinstance(st, ast.Assign) and "self._buffer_offset" in stores_to(st) and len(st.targets) == 1:
-            v = st.value
-            if is_const(v, 0):
-                off = "Z"
-            elif unparse(v) == "len(self._buffer)":
-                off = "L"
-            else:
+            elif isinstance(st, ast.AugAssign) and dotted(st.target) in ("self._buffer", "self._buffer_offset"):
                 return None
-        elif isinstance(st, (ast.If, ast.While, ast.For, ast.Try, ast.With)) and ({"self._buffer", "self._buffer_offset"} & {x for n_ in ast.walk(st) if isinstance(n_, (ast.Assign, ast.AugAssign)) for x in stores_to(n_)}):
-            return None
-        elif isinstance(st, ast.AugAssign) and dotted(st.target) in ("self._buffer", "self._buffer_offset"):
-            return None
-    if off is None:
+            else:
+                nxt.add((buf, off))
+        states = nxt
+    if any(off == "?" for (_, off) in states):
         return None
-    if buf == "E" and off == "L":
-        off = "Z"
-    return (buf, off)
+    return states
 
 
 def progress(ctx):
@@ -180,8 +191,9 @@ def progress(ctx):
         after = _cursor_after(lp.body, ("N", "Z"))
         if after is None:
             raise Undecidable("_read_all's loop body writes the buffer cursor in a way the abstract cursor does not model")
-        ctx.check(_refill_test_holds(kind, after), lp, "after each iteration the cursor state %s makes the refill test true (the next refill reads the file; the loop ends at EOF)" % (after,),
-                  "after an iteration of _read_all the cursor is %s, for which the refill test `%s` is false: the same buffer is collected again and the loop never ends" % (after, unparse(_loops(fb_)[0].test)))
+        badst = sorted(x for x in after if not _refill_test_holds(kind, x))
+        ctx.check(not badst, lp, "after each iteration every possible cursor state %s makes the refill test true (the next refill reads the file; the loop ends at EOF)" % sorted(after),
+                  "after an iteration of _read_all the cursor can be %s, for which the refill test `%s` is false: the same buffer is collected again and the loop never ends" % (badst, unparse(_loops(fb_)[0].test)))
     # (4) _read_bytes
     rby = ctx.repo.func(NPU, "_read_bytes")
     loops = _loops(rby)
@@ -341,8 +353,9 @@ def cursor(ctx):
             after = _cursor_after(blk, ("N", "Z"))
             if after is None:
                 raise Undecidable("the whole-buffer branch of _read_block writes the cursor in a way the abstract cursor does not model")
-            ctx.check(_refill_test_holds(kind, after), a, "after the whole buffer was handed out the cursor state %s makes the refill test true (%s form)" % (after, kind),
-                      "the whole buffer is handed out, leaving the cursor at %s, but the refill test `%s` is false in that state: the same block is returned again and again" % (after, unparse(_loops(fb_)[0].test)))
+            badst = sorted(x for x in after if not _refill_test_holds(kind, x))
+            ctx.check(not badst, a, "after the whole buffer was handed out every possible cursor state %s makes the refill test true (%s form)" % (sorted(after), kind),
+                      "the whole buffer is handed out, leaving the cursor at %s, but the refill test `%s` is false in that state: the same block is returned again and again" % (badst, unparse(_loops(fb_)[0].test)))
             if st:
                 g_ = cfg_of(f)
                 ctx.check(not g_.path_exists(g_.nodes_of(st[0]), g_.nodes_of(a), avoid=g_.nodes_of(_loops(f)[0]) if _loops(f) else ()), a, "the buffer is handed out before it is emptied",
